@@ -6,6 +6,7 @@ from pyvc.unit import unit
 
 DEX = "androguard/core/dex/__init__.py"
 META = {
+    "technique": 'contract-based deductive verification: symbolic execution of the real functions against sidecar contracts (z3/cvc5) for the proved units; bounded contract evaluation (enumerated scope / independent writer) for the rest',
     "level": "other",
     "partial": True,
     "level_text": "Proof: read_null_terminated_string on streams of 0..257 symbolic bytes (every content, hence every position of the "
